@@ -246,6 +246,12 @@ class Interp:
 
     def assign(self, t, v):
         if isinstance(t, ast.Name):
+            if isinstance(v, VEmptyList) and self.fr.contract is not None and t.id in self.fr.contract.locals_types:
+                ty = self.fr.contract.locals_types[t.id]       # sidecar typing of an empty display
+                if isinstance(ty, DictT):
+                    v = self.ctx.empty_dict(ty)
+                elif isinstance(ty, ListT):
+                    v = VList(ty.t, [z3.Empty(so) for s_, so in ty.comps()])
             if isinstance(v, (VList, VDict)) and v.origin is None:
                 v.origin = ('local',)
             self.fr.locals[t.id] = v
@@ -406,6 +412,12 @@ class Interp:
             for n in [st] + list(self.walk_own(st)):
                 if isinstance(n, ast.Name) and isinstance(n.ctx, (ast.Store, ast.Del)):
                     names.add(n.id)
+                # in-place mutation of a local container: x[k] = v, del x[k], x.append(...) ...
+                if isinstance(n, ast.Subscript) and isinstance(n.ctx, (ast.Store, ast.Del)) and isinstance(n.value, ast.Name):
+                    names.add(n.value.id)
+                if (isinstance(n, ast.Call) and isinstance(n.func, ast.Attribute) and isinstance(n.func.value, ast.Name)
+                        and n.func.attr in ('append', 'extend', 'insert', 'pop', 'remove', 'add', 'update', 'clear', 'setdefault', 'reverse', 'sort')):
+                    names.add(n.func.value.id)
         return names
 
     def x_While(self, s):
@@ -536,6 +548,14 @@ class Interp:
         def pre_body():
             k = self.fr.locals[kname]
             item = self.list_nth(lst, k.term)
+            dv = getattr(lst, 'dictview', None)
+            if dv is not None:
+                # elements of a key sequence are keys of the dict
+                self.ctx.assume(self.ctx.dict_has(dv.d, item))
+                if dv.kind == 'values':
+                    item = self.ctx.dict_get(dv.d, item)
+                elif dv.kind == 'items':
+                    item = VTuple([item, self.ctx.dict_get(dv.d, item)])
             self.assign(s.target, VTuple([VInt(k.term), item]) if enum else item)
             self.fr.locals[kname] = VInt(k.term + 1)
 
@@ -733,11 +753,11 @@ class Interp:
             if self.pure_expr(nxt):
                 save = (list(self.ctx.pc),)
                 other = self.eval(nxt)
-                merged = self.merge(ts if go_on else z3.Not(ts), other, cur)
+                merged = self.merge(t if go_on else z3.Not(t), other, cur)
                 if merged is not None:
                     cur = merged
                     continue
-            if self.ctx.branch(ts) == go_on:
+            if self.ctx.branch(t) == go_on:
                 cur = self.eval(nxt)
             else:
                 return cur
